@@ -183,6 +183,24 @@ fn private_rules(p: &asp::Program, private: &[Pred]) -> asp::Program {
     }
 }
 
+/// the public predicates whose extents matter: inputs, and the declared outputs that occur in
+/// the task at all (an output predicate mentioned nowhere is vacuous on both sides)
+pub fn relevant_public(task: &ExternalTask) -> Vec<Pred> {
+    let mut occurring: Vec<Pred> = task.right.predicates().into_iter().map(|p| (p.symbol, p.arity)).collect();
+    if let Some(p) = &task.left_program {
+        occurring.extend(p.predicates().into_iter().map(|p| (p.symbol, p.arity)));
+    }
+    if let Some(s) = &task.left_spec {
+        occurring.extend(s.predicates().into_iter().map(|p| (p.symbol, p.arity)));
+    }
+    task.names
+        .inputs
+        .iter()
+        .cloned()
+        .chain(task.names.outputs.iter().filter(|o| occurring.contains(o)).cloned())
+        .collect()
+}
+
 pub struct SideRef<'a> {
     pub program: &'a asp::Program,
     pub private: Vec<(Pred, String)>,
@@ -200,7 +218,7 @@ fn k_and3(a: Option<bool>, b: Option<bool>) -> Option<bool> {
 fn stable_on_side(task: &ExternalTask, side: &SideRef, j: &Interp, values: &BTreeMap<String, Val>) -> Option<bool> {
     let program = substitute_placeholders(side.program, values);
     let mut voc: Vec<(Pred, String)> = vec![];
-    for p in task.names.inputs.iter().chain(task.names.outputs.iter()) {
+    for p in relevant_public(task) {
         voc.push((p.clone(), p.0.clone()));
     }
     voc.extend(side.private.iter().cloned());
@@ -215,7 +233,7 @@ fn private_supported(task: &ExternalTask, side: &SideRef, j: &Interp, values: &B
     let private: Vec<Pred> = side.private.iter().map(|x| x.0.clone()).collect();
     let program = substitute_placeholders(&private_rules(side.program, &private), values);
     let mut open: Vec<(Pred, String)> = vec![];
-    for p in task.names.inputs.iter().chain(task.names.outputs.iter()) {
+    for p in relevant_public(task) {
         open.push((p.clone(), p.0.clone()));
     }
     let facts = restrict_rename(j, &open);
